@@ -8,8 +8,12 @@
      entry point that ends in `validate`, desc_implies_ms for tr(): PROVED.
      switch_exact for allow_compressed_keys: REFUTED (inert while x-only keys are allowed; this
        is the documented behaviour of validate_pk), strongest true variant proved.
-     accepted_ok / desc_implies_ms for the wsh / sh / bare wrappers: REFUTED (the wrappers
-       never call validate; witnesses below), strongest true variants `_partial` proved.   *)
+     accepted_ok / desc_implies_ms for the wsh / sh / bare wrappers and for Tr::new: REFUTED (the
+       wrappers never call validate, Tr::new looks at nothing in the leaf; witnesses below for the
+       classes that exist on /repo 757bc686: or_i / d: inside sh(), more than 201 executed
+       opcodes, non-B leaf through Tr::new), strongest true variants `_partial` / `_residual`
+       proved.  The non-B and pk_h-key classes were repaired in /repo (a8ead875, bd3f29d9) and
+       are now part of the positive statements.                                            *)
 From Verif Require Import ValidateModel ValidateSpec ValidateProofs ValidateAccept ValidateSwitch
   ValidateExact ValidateEntry.
 Local Open Scope N_scope.
@@ -90,8 +94,9 @@ Print Assumptions C12_limit_exact.
 (* the facts behind two defects, in the code's own terms *)
 Theorem C12_defect_meaning : forall s : summary,
   (has_repeated_keys s = true <-> ~ NoDup (map k_id (all_keys (s_nodes s)))) /\
-  (top_level_type_check s = TErr TeMultipath <-> multipath_mismatch (all_keys (s_nodes s))).
-Proof. exact (fun s => conj (has_repeated_keys_iff s) (top_level_type_check_iff s)). Qed.
+  (top_level_type_check s = TOk <->
+     s_base s = BB /\ ~ multipath_mismatch (all_keys (s_nodes s))).
+Proof. exact (fun s => conj (has_repeated_keys_iff s) (top_level_type_check_ok s)). Qed.
 Print Assumptions C12_defect_meaning.
 
 (* ---- accepted scripts obey their context ------------------------------------------------ *)
@@ -127,19 +132,28 @@ Proof.
 Qed.
 Print Assumptions C12_accepted_ok.
 
-(* Wsh / Sh / Bare ::from_str, ::new, Descriptor::from_str on them: accepted_ok is false *)
+(* Wsh / Sh / Bare ::from_str, ::new, Descriptor::from_str on them, Tr::new: accepted_ok is false *)
 Theorem C12_accepted_ok_wrappers_refuted :
-  wrapper_from_tree CSegwitv0 x_pk_k = EOk /\ ~ obeys CSegwitv0 (x_sum x_pk_k) /\
-  wrapper_new CSegwitv0 (x_sum x_pk_k) = EOk /\
-  wrapper_from_tree CLegacy x_pk_k = EOk /\ ~ obeys CLegacy (x_sum x_pk_k).
+  (wrapper_from_tree CLegacy x_or_i = EOk /\ wrapper_new CLegacy (x_sum x_or_i) = EOk /\
+   ~ obeys CLegacy (x_sum x_or_i)) /\
+  (wrapper_from_tree CLegacy x_dupif = EOk /\ ~ obeys CLegacy (x_sum x_dupif)) /\
+  (wrapper_from_tree CSegwitv0 x_ops_202 = EOk /\ wrapper_new CSegwitv0 (x_sum x_ops_202) = EOk /\
+   ~ obeys CSegwitv0 (x_sum x_ops_202)) /\
+  (tr_new_leaf (x_sum x_pk_k) = EOk /\ ~ obeys CTap (x_sum x_pk_k)).
 Proof. exact accepted_ok_wrappers_refuted. Qed.
 Print Assumptions C12_accepted_ok_wrappers_refuted.
 
+(* what the wrappers do guarantee: the tree-stage rules, base type B, every key of a kind the
+   context permits, consistent multipath lengths, the standard shape for bare *)
 Theorem C12_accepted_ok_wrappers_partial : forall (c : ctx) (x : expr),
-  wrapper_from_tree c x = EOk ->
-  obeys_parse c x /\ ~ multipath_mismatch (all_keys (s_nodes (x_sum x))) /\
-  (c = CBare -> bare_shape (x_sum x)).
-Proof. exact accepted_ok_wrappers_partial. Qed.
+  (wrapper_from_tree c x = EOk ->
+   obeys_parse c x /\ s_base (x_sum x) = BB /\
+   (forall k, In k (all_keys (s_nodes (x_sum x))) -> key_legal c k) /\
+   ~ multipath_mismatch (all_keys (s_nodes (x_sum x))) /\
+   (c = CBare -> bare_shape (x_sum x))) /\
+  (wrapper_new c (x_sum x) = EOk ->
+   s_base (x_sum x) = BB /\ ~ multipath_mismatch (all_keys (s_nodes (x_sum x)))).
+Proof. exact (fun c x => conj (accepted_ok_wrappers_partial c x) (wrapper_new_ok c (x_sum x))). Qed.
 Print Assumptions C12_accepted_ok_wrappers_partial.
 
 (* ---- descriptor parser vs miniscript parser with consensus parameters ------------------- *)
@@ -149,21 +163,25 @@ Proof. exact desc_implies_ms_tr. Qed.
 Print Assumptions C12_desc_implies_ms_tr.
 
 Theorem C12_desc_implies_ms_refuted :
-  (descriptor_from_str_inner CSegwitv0 x_pk_k = EOk /\
-   ms_from_str_with CSegwitv0 (ctx_consensus CSegwitv0) x_pk_k = EErr (EpValidation (ENonBase BK))) /\
   (descriptor_from_str_inner CLegacy x_or_i = EOk /\
    ms_from_str_with CLegacy (ctx_consensus CLegacy) x_or_i = EErr (EpValidation EIllegalOrI)) /\
-  (descriptor_from_str_inner CSegwitv0 x_pkh_xonly = EOk /\
-   ms_from_str_with CSegwitv0 (ctx_consensus CSegwitv0) x_pkh_xonly = EErr (EpValidation EKeyXOnly)) /\
+  (descriptor_from_str_inner CLegacy x_dupif = EOk /\
+   ms_from_str_with CLegacy (ctx_consensus CLegacy) x_dupif = EErr (EpValidation EIllegalDupIf)) /\
   (descriptor_from_str_inner CSegwitv0 x_ops_202 = EOk /\
    ms_from_str_with CSegwitv0 (ctx_consensus CSegwitv0) x_ops_202 = EErr (EpValidation EMaxOpCount)).
 Proof. exact desc_implies_ms_refuted. Qed.
 Print Assumptions C12_desc_implies_ms_refuted.
 
+(* for a script the descriptor parser accepts, the miniscript parser with consensus parameters
+   accepts it iff the context rules hold, i.e. (base type, key kinds and depth being established
+   by the wrapper) iff no forbidden fragment occurs and size / op count / stack are in range *)
 Theorem C12_desc_implies_ms_partial : forall (c : ctx) (x : expr),
   c <> CTap -> figs_bounded (x_sum x) -> descriptor_from_str_inner c x = EOk ->
-  (ms_from_str_with c (ctx_consensus c) x = EOk <-> obeys c (x_sum x)).
-Proof. exact desc_implies_ms_partial. Qed.
+  (ms_from_str_with c (ctx_consensus c) x = EOk <-> obeys c (x_sum x)) /\
+  (ms_from_str_with c (ctx_consensus c) x = EOk <-> residual c (x_sum x)).
+Proof.
+  exact (fun c x H F D => conj (desc_implies_ms_partial c x H F D) (desc_implies_ms_residual c x H F D)).
+Qed.
 Print Assumptions C12_desc_implies_ms_partial.
 
 (* ---- range rules of the primitive constructors ------------------------------------------ *)
